@@ -223,7 +223,7 @@ PROPS['C19'] = dict(
     rule='evaluations = books loaded + policy checks. Non-trivial = distinct books with a repeated key, a zero weight, a truncated tail, or empty.',
     assumptions=['decode of a record in a position follows the Polyglot format text (castling stored as king-takes-rook, also accepted in king-two-squares form)'],
     quick=dict(cases=450, shards=16, scale=3, gates={'c19:truncated_file': 100, 'c19:empty_file': 30, 'c19:repeated_key': 300, 'c19:zero_weight': 200,
-                                                  'c19:castling_record': 100, 'c19:promotion_record': 50, 'c19:distribution_checked': 100}, min_nontrivial=500,
+                                                  'c19:castling_record': 100, 'c19:promotion_record': 50, 'c19:distribution_checked': 100, 'c19:heavy_key_book': 3}, min_nontrivial=500,
                fuzz_jobs=8, fuzz_runs=30000),
     thorough=dict(cases=3000, shards=16, scale=3, min_nontrivial=20000, fuzz_jobs=16, fuzz_runs=1500000),
 )
@@ -341,7 +341,7 @@ for _p, _t in _EXTRA.items():
     PROPS[_p]['level_text'] = PROPS[_p]['level_text'] + _t
 # every rapidcheck-driven shard starts with one full-size case (words from the shard seed) before rapidcheck's empty first tape
 
-HOOK_COMMITS = ['2ee17ca', '895e75c', '46141b5']
+HOOK_COMMITS = ['2ee17ca', '895e75c', '46141b5', '2b4cd2f']
 
 # Zobrist entropy windows (24 bits each) used by the last shards of C01 / C05 / C14
 ZMASKS = ['00ffffff00000000', '0000000ffffff000', '0000000000ffffff', 'ffffff0000000000', '00000ffffff00000']
